@@ -113,6 +113,14 @@ pub struct Perturb {
     pub src_mtime: Option<i64>,
     /// simulated host name
     pub host: Option<String>,
+    /// number of CPUs the process may run on (affinity mask); None = all
+    pub ncpu: Option<u32>,
+    /// persistent per-user state: HOME, XDG_CACHE_HOME and TMPDIR point to directories that
+    /// survive from run to run of this worker
+    pub persist_home: bool,
+    /// process history: the same file name was compiled before, with this sibling's text, in the
+    /// same environment (same HOME/TMPDIR, same mtime) — output discarded
+    pub prev_run: Option<Sibling>,
     pub rd_rate: u32,
     pub wr_rate: u32,
     pub rd_fail_at: Option<(u64, i32)>,
@@ -135,6 +143,9 @@ impl Perturb {
             input_first: true,
             src_mtime: Some(1_600_000_000),
             host: None,
+            ncpu: None,
+            persist_home: false,
+            prev_run: None,
             rd_rate: 0,
             wr_rate: 0,
             rd_fail_at: None,
@@ -159,6 +170,9 @@ impl Perturb {
             "input_first": self.input_first,
             "src_mtime": self.src_mtime,
             "host": self.host,
+            "ncpu": self.ncpu,
+            "persist_home": self.persist_home,
+            "prev_run": self.prev_run.as_ref().map(|s| s.to_json()),
             "rd_rate": self.rd_rate,
             "wr_rate": self.wr_rate,
             "rd_fail_at": self.rd_fail_at.map(|(k, e)| json!([k, e])),
@@ -190,6 +204,9 @@ impl Perturb {
         p.input_first = v["input_first"].as_bool()?;
         p.src_mtime = v["src_mtime"].as_i64();
         p.host = v["host"].as_str().map(String::from);
+        p.ncpu = v["ncpu"].as_u64().map(|x| x as u32);
+        p.persist_home = v["persist_home"].as_bool().unwrap_or(false);
+        p.prev_run = if v["prev_run"].is_null() { None } else { Sibling::from_json(&v["prev_run"]) };
         p.rd_rate = v["rd_rate"].as_u64()? as u32;
         p.wr_rate = v["wr_rate"].as_u64()? as u32;
         let pair = |x: &Value| -> Option<(u64, i32)> { Some((x[0].as_u64()?, x[1].as_i64()? as i32)) };
@@ -381,10 +398,16 @@ pub fn run_proc(ctx: &Ctx, wd: &WorkerDir, job: &Job, text: &str, p: &Perturb, c
     }
 
     let mut cmd = Command::new(&ctx.launcher);
-    cmd.arg(format!("{TIMEOUT_S}:{CPU_LIMIT_S}")).arg(&ctx.shim).arg(&plan_path).arg(&ctx.pdlc).args(&args);
+    cmd.arg(format!("{TIMEOUT_S}:{CPU_LIMIT_S}:{}", p.ncpu.unwrap_or(0))).arg(&ctx.shim).arg(&plan_path).arg(&ctx.pdlc).args(&args);
     cmd.env_clear();
     for (k, v) in &p.env {
         cmd.env(k, v);
+    }
+    if p.persist_home {
+        let home = wd.root.join("home");
+        let _ = std::fs::create_dir_all(home.join(".cache"));
+        let _ = std::fs::create_dir_all(wd.root.join("tmp"));
+        cmd.env("HOME", &home).env("XDG_CACHE_HOME", home.join(".cache")).env("TMPDIR", wd.root.join("tmp"));
     }
     cmd.current_dir(&cwd);
     cmd.stdin(Stdio::null());
@@ -508,6 +531,15 @@ pub fn draw_perturb(rng: &mut Rng, backend: Backend, ref_out: &ProcOut) -> Pertu
     if on(12) {
         p.host = Some(rng.pick(&["build-01", "ci-runner-7f3a", "localhost", "x"]).to_string());
     }
+    if on(13) {
+        p.ncpu = Some(*rng.pick(&[1u32, 2, 3, 5, 7, 11]));
+    }
+    if on(14) {
+        p.persist_home = true;
+        if rng.below(2) == 0 {
+            p.prev_run = Some(if rng.below(2) == 0 { Sibling::SwapTwoWidths(rng.next()) } else { Sibling::draw(rng) });
+        }
+    }
     // retryable I/O faults
     if on(9) {
         p.wr_rate = *rng.pick(&[16u32, 64, 128, 256]);
@@ -612,6 +644,9 @@ fn note_enabled(p: &Perturb, st: &mut RunStats) {
     bump(&mut st.enabled, "input_last", (!p.input_first) as u64);
     bump(&mut st.enabled, "source_mtime", (p.src_mtime != c.src_mtime) as u64);
     bump(&mut st.enabled, "hostname", p.host.is_some() as u64);
+    bump(&mut st.enabled, "cpu_affinity", p.ncpu.is_some() as u64);
+    bump(&mut st.enabled, "persistent_home_and_tmp", p.persist_home as u64);
+    bump(&mut st.enabled, "previous_run_of_a_sibling_under_the_same_name", p.prev_run.is_some() as u64);
     bump(&mut st.enabled, "short_or_eintr_write", (p.wr_rate > 0) as u64);
     bump(&mut st.enabled, "short_or_eintr_read", (p.rd_rate > 0) as u64);
     bump(&mut st.enabled, "hard_read_error", p.rd_fail_at.is_some() as u64);
@@ -730,7 +765,21 @@ pub fn execute(ctx: &Ctx, wd: &WorkerDir, job: &Job, p: &Perturb, st: &mut RunSt
         }
     }
 
-    let got = run_proc(ctx, wd, job, &text, p, clear);
+    if let Some(sib) = &p.prev_run {
+        // process history: same name, other text, same environment; whatever it leaves behind in
+        // HOME / TMPDIR / the output directory is what the judged run starts from
+        let mut q = p.clone();
+        q.prev_run = None;
+        q.rd_fail_at = None;
+        q.wr_fail_at = None;
+        q.wr_crash_at = None;
+        q.rd_rate = 0;
+        q.wr_rate = 0;
+        let prev_text = sib.apply(&text);
+        let _ = run_proc(ctx, wd, job, &prev_text, &q, clear);
+        st.procs += 1;
+    }
+    let got = run_proc(ctx, wd, job, &text, p, clear && p.prev_run.is_none());
     st.procs += 1;
     note_fired(&got.log, st);
     if job.backend == Backend::Java && !got.log.sink_open_order.is_empty() {
@@ -763,7 +812,7 @@ pub fn execute(ctx: &Ctx, wd: &WorkerDir, job: &Job, p: &Perturb, st: &mut RunSt
                         detail: format!("after a hard fault stdout is not a prefix of the reference (first diff at {:?})", first_diff(&r.stdout, &got.stdout)),
                     });
                 }
-                if job.backend == Backend::Java && matches!(p.java_hist, JavaHist::Empty) {
+                if job.backend == Backend::Java && matches!(p.java_hist, JavaHist::Empty) && p.prev_run.is_none() {
                     for (name, content) in &got.files {
                         match r.files.get(name) {
                             Some(rc) if rc.starts_with(content) => {}
@@ -811,7 +860,7 @@ pub fn execute(ctx: &Ctx, wd: &WorkerDir, job: &Job, p: &Perturb, st: &mut RunSt
                 if job.backend == Backend::Java {
                     // after a crashed earlier run stray temporary files may legitimately remain: only the
                     // class files of the description are judged then (as for a sibling's leftovers)
-                    let exact = matches!(p.java_hist, JavaHist::Empty | JavaHist::Same | JavaHist::LongerStale(_));
+                    let exact = matches!(p.java_hist, JavaHist::Empty | JavaHist::Same | JavaHist::LongerStale(_)) && p.prev_run.is_none();
                     if let Some(d) = compare_java(&r, &got, exact) {
                         let inv = if matches!(p.java_hist, JavaHist::Empty) { "I1" } else { "I3" };
                         return Some(Violation { invariant: inv, detail: format!("{d} (directory history {:?})", p.java_hist) });
